@@ -128,17 +128,12 @@ pub fn print_js<'a>(
     let final_source_map = chain_source_maps(source_map, &original_source_map.source, config)
         .unwrap_or_else(|| String::from(source_map));
 
-    let final_code = if config.print_comments {
-        match &original_source_map.source_map_comment {
-            Some(comment) => {
-                debug!("Replacing original sourceMappingUrl comment: {comment}");
-                code.replace(comment.as_str(), "").into()
-            }
-            _ => code.into(),
-        }
-    } else {
-        code.into()
-    };
+    // the superseded sourceMappingURL comment is not printed at all (see extract_source_map): the
+    // code is never edited as text, so look-alike string literals and regular expressions are safe
+    if let Some(comment) = &original_source_map.source_map_comment {
+        debug!("Original sourceMappingUrl comment superseded: {comment}");
+    }
+    let final_code: Cow<'a, str> = code.into();
 
     if final_source_map.is_empty() {
         debug!("No sourcemap available");
@@ -357,6 +352,12 @@ fn extract_source_map<R: Read>(
                     });
             }
         }
+    }
+
+    // the comment is superseded by the trailer appended to the output: it is taken out of the comments
+    // to print, so that the printed text does not have to be edited afterwards
+    for mut trailing in comments.trailing.iter_mut() {
+        trailing.retain(|comment| !comment.text.trim().starts_with(SOURCE_MAP_URL));
     }
 
     OriginalSourceMap {
